@@ -66,6 +66,7 @@ type Server struct {
 	leases    map[int64]*lease
 	nextLease int64
 	history   []histEntry
+	compacted int64 // revisions below this one are compacted: a watch that asks for them is cancelled with ErrCompacted
 	watchers  []*watcher
 	nextWatch int
 	Log       []OpLog
@@ -502,7 +503,30 @@ func (k *kvClient) txn(ctx context.Context, in *pb.TxnRequest) (*pb.TxnResponse,
 }
 
 func (k *kvClient) Compact(ctx context.Context, in *pb.CompactionRequest, _ ...grpc.CallOption) (*pb.CompactionResponse, error) {
+	k.c.S.Compact(in.Revision)
 	return &pb.CompactionResponse{Header: k.c.S.header()}, nil
+}
+
+// Compact discards the event history below rev (0 = the current revision), as etcd's periodic or
+// operator-issued compaction does: watches that later ask to start below it are cancelled with the
+// compact revision set (clientv3: rpctypes.ErrCompacted).
+func (s *Server) Compact(rev int64) {
+	s.mu.Lock()
+	defer s.mu.Unlock()
+	if rev <= 0 || rev > s.rev {
+		rev = s.rev
+	}
+	if rev <= s.compacted {
+		return
+	}
+	s.compacted = rev
+	keep := s.history[:0]
+	for _, h := range s.history {
+		if h.rev >= rev {
+			keep = append(keep, h)
+		}
+	}
+	s.history = keep
 }
 
 // ---- clientv3.Lease ----
